@@ -4,6 +4,7 @@ import PasslibVerif.Props.C12
 import PasslibVerif.Props.C13
 import PasslibVerif.Props.C14
 import PasslibVerif.Props.C16
+import PasslibVerif.Props.C18
 import PasslibVerif.Spec.Pbkdf
 import PasslibVerif.Spec.SHA512
 import PasslibVerif.Spec.SHA1
